@@ -73,13 +73,23 @@ def export(work, rgs, progs, variant, tag):
     return pool, cases, res
 
 
+def cat_of(rid):
+    return None if rid % 5 == 4 else "L%d" % (rid % 3)
+
+
+def wide_of(rid):
+    return None if rid % 7 == 3 else "W%03d" % ((rid * 13) % 200)
+
+
 def build_datasets(fp, pd, base, pool, cls):
     """-> list of datasets: dict(path, idx=[pool index per row group], rids=[[row ids] per row group])"""
     out = []
     import fastparquet.writer as W
-    for stats, only, tiny in ((False, "both", False), (True, "both", False), (True, "x", False), (True, "y", False),
-                              (True, "both", True)):
+    for stats, only, tiny, pv in ((False, "both", False, 1), (True, "both", False, 1), (True, "x", False, 1),
+                                  (True, "y", False, 1), (True, "both", True, 1),
+                                  (True, "both", False, 2), (True, "both", True, 2)):
       # tiny: a page budget of a few bytes - every row group is cut into one-row pages (the row filter works page by page)
+      # pv: data page version the dataset is written with (a dimension neither pruning nor row selection may depend on)
       for part in (False, True):
             idx = [i for i, g in enumerate(pool) if g["stats"] == stats and g.get("only", "both") == only
                    and ((g["p"] != NULL) == part)]
@@ -94,7 +104,11 @@ def build_datasets(fp, pd, base, pool, cls):
                     ps.append(pool[i]["p"])
                     rid.append(i * 10 + r)
             df = pd.DataFrame({"rid": pd.Series(rid, dtype="int64"), "x": column(pd, cls, xs), "y": column(pd, "int", ys)})
-            path = os.path.join(base, "ds-%s-%d-%s-%d-%d" % (cls, stats, only, part, tiny))
+            # two columns that are only ever OUTPUT: a categorical (with missing cells) and a wide one (two-byte codes),
+            # functions of the row id so that their alignment with the selected rows can be checked
+            df["c"] = pd.Categorical([cat_of(r) for r in rid], categories=["L0", "L1", "L2"])
+            df["w"] = pd.Categorical([wide_of(r) for r in rid], categories=["W%03d" % i for i in range(200)])
+            path = os.path.join(base, "ds-%s-%d-%s-%d-%d-%d" % (cls, stats, only, part, tiny, pv))
             stats_arg = stats if only == "both" else [only]
             pkind = cls.partition("|")[2]
             if part:
@@ -102,8 +116,9 @@ def build_datasets(fp, pd, base, pool, cls):
                     df["p"] = pd.Series([pconc(pkind, v) for v in ps], dtype=("str" if pkind.endswith("str") else object))
                 else:
                     df["p"] = pd.Series([pconc(pkind, v) for v in ps], dtype="int64")
-            old_page = W.MAX_PAGE_SIZE
+            old_page, old_pv = W.MAX_PAGE_SIZE, W.DATAPAGE_VERSION
             try:
+                W.DATAPAGE_VERSION = pv
                 if tiny:
                     W.MAX_PAGE_SIZE = 9
                 if part:
@@ -112,11 +127,12 @@ def build_datasets(fp, pd, base, pool, cls):
                 else:
                     fp.write(path, df, file_scheme="hive", row_group_offsets=offs, stats=stats_arg, write_index=False)
             finally:
-                W.MAX_PAGE_SIZE = old_page
+                W.MAX_PAGE_SIZE, W.DATAPAGE_VERSION = old_page, old_pv
             pf = fp.ParquetFile(path)
             if len(pf.row_groups) != len(idx):
                 raise RuntimeError("dataset does not have one row group per pool element: %d vs %d" % (len(pf.row_groups), len(idx)))
-            out.append({"path": path, "idx": idx, "stats": stats, "only": only, "part": part, "pages": "one-row pages" if tiny else "one page"})
+            out.append({"path": path, "idx": idx, "stats": stats, "only": only, "part": part, "pages": "one-row pages" if tiny else "one page",
+                        "page_version": pv})
     return out
 
 
@@ -169,7 +185,8 @@ def eval_job(args):
             filters = real_filters(pg, cls)
             sig = {"ops": sorted({a["op"] for g in pg["groups"] for a in g}), "flat": pg["flat"],
                    "groups": len(pg["groups"]), "atoms": sum(len(g) for g in pg["groups"]),
-                   "partition_atom": mentions_p(pg), "class": cls, "stats": dsinfo["stats"], "stat_columns": dsinfo.get("only", "both"), "pages": dsinfo.get("pages", "one page")}
+                   "partition_atom": mentions_p(pg), "class": cls, "stats": dsinfo["stats"], "stat_columns": dsinfo.get("only", "both"), "pages": dsinfo.get("pages", "one page"),
+                   "page_version": dsinfo.get("page_version", 1)}
             pf = fp.ParquetFile(dsinfo["path"])
             out["evals"] += 1
             try:
@@ -241,6 +258,14 @@ def eval_job(args):
                     if (want == NULL) != isnull or (want != NULL and not _eq(xv, conc(cls, want))):
                         out["viol"].append(("C13", dict(sig, what="columns not aligned with the selected rows"), ci))
                         break
+            if len(dfr) == len(got):
+                for colname, fn in (("c", cat_of), ("w", wide_of)):
+                    if colname in dfr.columns:
+                        vals = [None if v != v else v for v in dfr[colname].astype(object)]
+                        if vals != [fn(r) for r in got]:
+                            out["viol"].append(("C13", dict(sig, what="categorical output column not aligned with the "
+                                                                      "selected rows", column=colname), ci))
+                            break
             if ms != got and len(out["drift"]) < 5:
                 out["drift"].append({"what": "row selection differs from the mechanism model", "prog": pg,
                                      "real": got[:10], "model": ms[:10]})
